@@ -455,6 +455,18 @@ func c12Build(opn string, seed, msg []byte) (*c12Case, error) {
 				}}, nil
 		}
 		return &c12Case{name: opn, order: ln, hiOff: 1,
+			// step A5 on this curve too: a scalar whose mask is all zero is legitimately replaced by the next block
+			reject: func(k *big.Int) bool {
+				x2, y2 := cv.ScalarMult(lp.X, lp.Y, k.Bytes())
+				bl := (cv.Params().BitSize + 7) / 8
+				z := append(x2.FillBytes(make([]byte, bl)), y2.FillBytes(make([]byte, bl))...)
+				for _, x := range sm3m.KDF(z, len(msg)) {
+					if x != 0 {
+						return false
+					}
+				}
+				return true
+			},
 			run: func(rd io.Reader) ([][]byte, error) {
 				ct, err := sm2.Encrypt(rd, &lp.PublicKey, msg, nil)
 				return [][]byte{ct}, err
